@@ -12,6 +12,8 @@ Balanced families: resting isothermal atmosphere over EVERY single-mode orograph
 sums; solid-body rotation in gradient-wind balance (two variants) with uniform humidity for the moist
 classes; geostrophically balanced zonal jets of the layered shallow-water system.  Oracle: total tendency
 == 0 within C*eps*(largest cancelling term).
+
+Extensions after the seeded-breakage rounds (DESIGN.md 8.5): Planet sequences: several planets (rotation rate incl. zero and retrograde, gravity) are evaluated one after the other in one process on equal grids against the reference model with the same constants.
 """
 import itertools
 import numpy as np
